@@ -310,6 +310,9 @@ RULE = ("every sequence (length <= 3; <= 4 on the in-memory stores in the thorou
 from vmc.tables import _ROUND6 as _R6  # noqa: E402
 
 RULE += _R6["C24"]
+from vmc.tables import _ROUND7 as _R7  # noqa: E402
+
+RULE += _R7["C24"]
 
 
 
